@@ -5,46 +5,6 @@
 //   wf(s)          : every run non-empty, runs strictly separated (sorted, disjoint, NON-adjacent => maximal runs)
 //   near(s, k)     : wf except that run k may reach into / touch its successors (state inside the coalescing loop)
 
-pub open spec fn ord_of(a: int, b: int) -> Ordering {
-    if a < b { Ordering::Less } else if a == b { Ordering::Equal } else { Ordering::Greater }
-}
-
-pub open spec fn ord_rank(o: Ordering) -> int {
-    match o { Ordering::Less => 0, Ordering::Equal => 1, Ordering::Greater => 2 }
-}
-
-// ASSUMED contract of std: `<[T]>::binary_search_by` (documented behaviour on a slice that is sorted w.r.t. `f`)
-pub assume_specification<'a, T, F> [ <[T]>::binary_search_by ] (s: &'a [T], f: F) -> (r: Result<usize, usize>)
-    where F: FnMut(&'a T) -> Ordering
-    requires
-        forall|i: int| 0 <= i < s@.len() ==> call_requires(f, (&#[trigger] s@[i],)),
-        // sorted w.r.t. f: the comparator's answers are monotone Less.. Equal.. Greater.. along the slice
-        // (stated for neighbours; equivalent to the all-pairs form by transitivity)
-        forall|i: int, j: int, oi: Ordering, oj: Ordering|
-            0 <= i && j == i + 1 && j < s@.len()
-            && #[trigger] call_ensures(f, (&s@[i],), oi) && #[trigger] call_ensures(f, (&s@[j],), oj)
-            ==> ord_rank(oi) <= ord_rank(oj),
-    ensures
-        match r {
-            Ok(k) => k < s@.len() && s@.len() <= usize::MAX && call_ensures(f, (&s@[k as int],), Ordering::Equal),
-            Err(k) => k <= s@.len()
-                && (forall|i: int| 0 <= i < k ==> call_ensures(f, (&#[trigger] s@[i],), Ordering::Less))
-                && (forall|i: int| k <= i < s@.len() ==> call_ensures(f, (&#[trigger] s@[i],), Ordering::Greater)),
-        },
-;
-
-// ASSUMED contract of std: `std::cmp::max` (documented: returns the second argument when the two compare equal)
-pub assume_specification<T> [ std::cmp::max ] (a: T, b: T) -> (r: T)
-    where T: std::cmp::Ord + std::marker::Destruct
-    ensures
-        <T as OrdSpec>::obeys_cmp_spec() ==> r == (if a.cmp_spec(&b) == Ordering::Greater { a } else { b }),
-;
-
-pub fn rt_assert(b: bool)
-    requires b,
-{
-}
-
 pub open spec fn inr(x: (u64, u64), b: int) -> bool {
     x.0 <= b < x.1
 }
